@@ -3,7 +3,7 @@
 For each: copy /repo to a scratch directory outside /repo and /verif, apply the patch, run the repo's
 test-suite (must pass), run the demonstration with and without the change (must fail / pass), run the
 quick (or --thorough) check of the property against the patched copy (VERIF_REPO) and report whether it
-raises VIOLATION.  usage: seeded.py [id ...] [--thorough] [--no-tests]"""
+raises VIOLATION.  usage: seeded.py [id ...] [--thorough] [--no-tests] [--record]"""
 import json
 import os
 import shutil
@@ -52,6 +52,14 @@ def main():
             rows.append((name, meta["property"], "%s (%s, %.0fs) | tests: %s | demo with change rc=%d, without rc=%d | %s"
                          % (status, tier, time.time() - t0, tests, dm.returncode, dc.returncode, detail[0].strip()[:160] if detail else "")))
             print(*rows[-1], flush=True)
+            if "--record" in sys.argv:      # keep what was run in the seed's meta.json
+                ran = meta.setdefault("ran", {})
+                if tests != "-":
+                    ran["tests_with_change"] = tests
+                ran["confirmed"] = "harness/seeded.py: patch applies to a copy of /repo HEAD; demo.py exits %d with the change and %d without" % (dm.returncode, dc.returncode)
+                ran[tier + "_check"] = "%s (./check %s --tier %s with VERIF_REPO=<patched scratch copy>)%s" % (
+                    status.split(" rc=")[0], meta["property"], tier, (": " + detail[0].strip()[:200]) if detail else "")
+                json.dump(meta, open(os.path.join(d, "meta.json"), "w"), indent=1)
             shutil.rmtree(root, ignore_errors=True)
     finally:
         shutil.rmtree(base, ignore_errors=True)
